@@ -991,6 +991,10 @@ fn build_item(d: &mut Dice) -> (Item, Vec<String>, Vec<String>) {
     (item, labels, std::mem::take(&mut extra_items))
 }
 
+pub fn build_item_pub(d: &mut Dice) -> (Item, Vec<String>, Vec<String>) {
+    build_item(d)
+}
+
 fn build(d: &mut Dice) -> GenCase {
     let (item, labels, extra) = build_item(d);
     let body = format!("{}\n{}", extra.join("\n"), item.render(true));
